@@ -127,6 +127,11 @@ def gen_case(rng, tier, i):
             f[1], f[2] = round(float(rng.uniform(0, 0.5)), 4), round(float(rng.uniform(0, 0.5)), 4)
         vig = True
         classes.append('vignetting-factors')
+        if len(spec['fields']) >= 3 and rng.random() < 0.3:
+            # no axial field in the list: requested fields below the smallest entered one take ITS factors (never
+            # negative ones extrapolated from the trend)
+            spec['fields'] = [f for f in spec['fields'] if f[0] != 0]
+            classes.append('no-axial-field-entered')
         if len(spec['fields']) >= 2 and rng.random() < 0.5:
             # fields entered in non-ascending order (the order of entry is not part of the meaning of a field)
             f_ = spec['fields']
@@ -147,7 +152,9 @@ def gen_case(rng, tier, i):
     rr[4] = 0.0
     Px, Py = rr * np.cos(th), rr * np.sin(th)
     Hy = float(rng.choice([0.0, 1.0, -1.0, rng.uniform(-1, 1)]))
-    if vig and rng.random() < 0.6:
+    if 'no-axial-field-entered' in classes and rng.random() < 0.6:
+        Hy = float(rng.choice([0.0, rng.uniform(-0.3, 0.3)]))
+    elif vig and rng.random() < 0.6:
         # exactly one of the entered fields (a field entered with zero factors must be aimed at the full pupil, whatever
         # the factors of the other fields and whatever the order of entry)
         fm_ = max(abs(f[0]) for f in spec['fields'])
@@ -216,6 +223,15 @@ def check_dist(case, rec):
             d0.generate_points(n)
             ok = bool(np.all(np.abs(x) <= np.abs(d0.x) + 1e-15) and np.all(np.abs(y) <= np.abs(d0.y) + 1e-15))
             rec.check('vignetting-shrinks', ok, msg=f'{name}: vignetting factors enlarged the sampled pupil')
+    # a second sampling of the same name with another count: the first one keeps ITS points (two samplings alive at once)
+    if not name.startswith('gaussian'):
+        x_keep, y_keep = x.copy(), y.copy()
+        d2 = D.create_distribution(name)
+        d2.generate_points(n + 3)
+        x_late, y_late = np.asarray(d.x, float), np.asarray(d.y, float)
+        rec.check('distribution-count', x_late.shape == x_keep.shape and bool(np.array_equal(x_late, x_keep))
+                  and bool(np.array_equal(y_late, y_keep)), key='distribution-count:objects-independent',
+                  msg=f'{name}({n}): the points of a sampling changed when a second {name} sampling ({n + 3}) was generated')
     if want >= 7:
         rec.nontrivial_case()
     # through Optic.trace: the number of launched rays is the documented count
